@@ -310,8 +310,69 @@ mod verif_replay_static {
 '''
 
 
+STATIC_TEST_EARLY = r'''
+#[cfg(test)]
+mod verif_replay_static_early {
+    use super::*;
+    use std::time::{Duration, Instant};
+    fn open_at(deadline_ms: u64, probe_ms: u64) -> bool {
+        let mut b: JobBroker<usize> = JobBroker::new(2, Some(SystemTime::now() + Duration::from_millis(deadline_ms)));
+        let t0 = Instant::now();
+        while t0.elapsed() < Duration::from_millis(probe_ms) { std::thread::sleep(Duration::from_millis(10)); }
+        b.push((0..3).collect());
+        b.pop().len() == 3
+    }
+    /// An UNEXPIRED timeout must not close the market.
+    #[test]
+    fn verif_timeout_not_before_deadline() {
+        assert!(open_at(900, 150), "VIOLATION market closed 750 ms before a 900 ms deadline");
+        assert!(open_at(2600, 2150), "VIOLATION market closed 450 ms before a 2.6 s deadline");
+    }
+}
+'''
+
+STATIC_TEST_LATE = r'''
+#[cfg(test)]
+mod verif_replay_static_late {
+    use super::*;
+    use std::time::Duration;
+    /// After expiry the market is closed within one polling period plus one critical section.
+    #[test]
+    fn verif_timeout_closes_after_deadline() {
+        let mut b: JobBroker<usize> = JobBroker::new(2, Some(SystemTime::now() + Duration::from_millis(300)));
+        std::thread::sleep(Duration::from_millis(300 + 1000 + 400));
+        b.push((0..3).collect());
+        assert!(b.pop().is_empty(), "VIOLATION market still open 1.4 s after the deadline");
+    }
+}
+'''
+
+
+def _native_test(d, code, filt, marker):
+    sr = os.path.join(d, "pristine")
+    p = os.path.join(sr, "src", "job_market.rs")
+    orig = open(p).read()
+    try:
+        open(p, "w").write(orig + code)
+        env = dict(os.environ)
+        env["CARGO_NET_OFFLINE"] = "true"
+        env["CARGO_TARGET_DIR"] = os.path.join(CACHE_ROOT, "target-mir-native")
+        r = subprocess.run(["cargo", "test", "--lib", "--offline", filt], cwd=sr, env=env, stdout=subprocess.PIPE, stderr=subprocess.STDOUT, text=True, timeout=900)
+        if marker in r.stdout:
+            return True, r.stdout[-1500:]
+        if re.search(r"test result: ok\. 1 passed", r.stdout):
+            return False, r.stdout[-800:]
+        return None, r.stdout[-1500:]
+    finally:
+        open(p, "w").write(orig)
+
+
 def replay_static(d, pid, v):
     """Static obligations with a native demonstration."""
+    if pid == "C12" and "not closed by the timeout thread before the closing time" in v["obligation"]:
+        return _native_test(d, STATIC_TEST_EARLY, "verif_timeout_not_before_deadline", "VIOLATION market closed")
+    if pid == "C12" and ("market closed once the closing time has passed" in v["obligation"] or "never goes back to sleep once the closing time has passed" in v["obligation"]):
+        return _native_test(d, STATIC_TEST_LATE, "verif_timeout_closes_after_deadline", "VIOLATION market still open")
     if pid == "C12" and "not sleeping while holding the market mutex" in v["obligation"]:
         sr = os.path.join(d, "pristine")
         p = os.path.join(sr, "src", "job_market.rs")
